@@ -30,8 +30,8 @@ ASSUMPTIONS = [
     'values outside the CSS 2.1 grammar are asserted invalid only when no CSS level could accept them (nonsense, wrong token kinds)',
     'default profiles are unrestricted',
 ]
-MIN_EVENTS = {'quick': {'oracle.grammar': 1100, 'oracle.metamorphic': 18000, 'oracle.paths': 4000, 'oracle.conjunction': 500, 'oracle.validate-onoff': 500},
-              'thorough': {'oracle.grammar': 1100, 'oracle.metamorphic': 250000, 'oracle.paths': 100000, 'oracle.conjunction': 12000, 'oracle.validate-onoff': 12000}}
+MIN_EVENTS = {'quick': {'oracle.profile-switch': 12000, 'oracle.grammar': 1100, 'oracle.metamorphic': 18000, 'oracle.paths': 4000, 'oracle.conjunction': 500, 'oracle.validate-onoff': 500},
+              'thorough': {'oracle.profile-switch': 250000, 'oracle.grammar': 1100, 'oracle.metamorphic': 250000, 'oracle.paths': 55000, 'oracle.conjunction': 12000, 'oracle.validate-onoff': 12000}}
 
 NEGATIVE_OK = {'margin-top', 'margin-right', 'margin-bottom', 'margin-left', 'top', 'right', 'bottom', 'left', 'z-index', 'text-indent',
                'letter-spacing', 'word-spacing', 'vertical-align'}  # fmt: skip
@@ -331,9 +331,51 @@ def sheets_stream(ctx, cssutils, count):
             ctx.violation('exception', case, {'tb': core.short_tb(e)}, site=core.raise_site(e))
 
 
+SWITCH_PAIRS = [('opacity', '0.5'), ('text-shadow', 'none'), ('resize', 'both'), ('box-sizing', 'border-box'), ('overflow-x', 'hidden'), ('color', 'rgba(1,2,3,0.5)'), ('color', 'red'),
+                ('width', '1px'), ('width', 'zqx'), ('cursor', 'zoom-in'), ('outline-offset', '2px'), ('border-radius', '1px'), ('font-stretch', 'wider'), ('size', 'a4'), ('src', 'url(a)'),
+                ('text-overflow', 'ellipsis'), ('word-wrap', 'break-word'), ('nosuch', '1')]  # fmt: skip
+
+
+def profile_switch_stream(ctx, cssutils, count):
+    """the verdict depends only on (name, value, active profiles): after any sequence of switches of the default profiles and of
+    validations under other settings, the verdict equals the one of a brand-new registry given the same setting"""
+    P = cssutils.profiles.Profiles
+    settings = [None, P.CSS_LEVEL_2, [P.CSS_LEVEL_2, P.CSS3_COLOR], [P.CSS3_BASIC_USER_INTERFACE], [P.CSS_LEVEL_2, P.CSS3_BOX, P.CSS3_TEXT], P.CSS3_FONT_FACE]
+    reg = cssutils.profile
+    for i in range(count):
+        if not ctx.mine(i):
+            continue
+        rng = ctx.rng('switch', i)
+        hist = []
+        try:
+            for step in range(rng.randint(3, 10)):
+                setting = rng.choice(settings)
+                reg.defaultProfiles = setting
+                pairs = rng.sample(SWITCH_PAIRS, rng.randint(1, 4))
+                hist.append([setting, pairs])
+                fresh = P(log=cssutils.log)
+                fresh.defaultProfiles = setting
+                for n, v in pairs:
+                    ctx.count('oracle.profile-switch')
+                    ctx.count('evaluations')
+                    got = [list(reg.validateWithProfile(n, v)), reg.validate(n, v), cssutils.css.Property(n, v).valid]
+                    want_vwp = list(fresh.validateWithProfile(n, v))
+                    # Property.valid = valid and matching the active profiles
+                    want = [want_vwp, fresh.validate(n, v), bool(want_vwp[0] and want_vwp[1])]
+                    if got != want:
+                        ctx.violation('profile-switch', {'kind': 'switch', 'history': hist}, {'pair': [n, v], 'setting': setting, 'got': got, 'fresh_registry': want})
+                        raise StopIteration
+                    ctx.seen(['switch', str(setting)[:30], n, str(got[2])])
+        except StopIteration:
+            pass
+        finally:
+            reg.defaultProfiles = None
+
+
 def run_worker(ctx):
     cssutils, _ = core.import_repo()
     quick = ctx.tier == 'quick'
+    profile_switch_stream(ctx, cssutils, 1200 if quick else 25000)
     grammar_stream(ctx, cssutils)
     metamorphic_stream(ctx, cssutils, 4500 if quick else 70000)
     sheets_stream(ctx, cssutils, 700 if quick else 15000)
@@ -346,6 +388,23 @@ def replay(ctx, case):
         name, value = case['name'], case['value']
         expect = case.get('expect')
         judge_pair(ctx, cssutils, name, value, random.Random(0), case.get('vclass', 'pool'), expect, case.get('context', 'style'))
+    elif case.get('kind') == 'switch':
+        P = cssutils.profiles.Profiles
+        reg = cssutils.profile
+        try:
+            for setting, pairs in case['history']:
+                reg.defaultProfiles = setting
+                fresh = P(log=cssutils.log)
+                fresh.defaultProfiles = setting
+                for n, v in pairs:
+                    got = [list(reg.validateWithProfile(n, v)), reg.validate(n, v), cssutils.css.Property(n, v).valid]
+                    w = list(fresh.validateWithProfile(n, v))
+                    want = [w, fresh.validate(n, v), bool(w[0] and w[1])]
+                    if got != want:
+                        ctx.violation('profile-switch', case, {'pair': [n, v], 'setting': setting, 'got': got, 'fresh_registry': want})
+                        return
+        finally:
+            reg.defaultProfiles = None
     elif case.get('kind') == 'sheet':
         s_on = cssutils.CSSParser(validate=True).parseString(case['text'])
         s_off = cssutils.CSSParser(validate=False).parseString(case['text'])
